@@ -528,6 +528,19 @@ func vASGenerate(t *testing.T, h *vAS, r *vrand, nseq, nops int) {
 					case 3: // malformed block
 						gaps = r.pickS("0-1", "3-2")
 						h.l.stat("as.sack.invalid")
+					case 6, 7: // a malformed / out-of-order / overlapping block BEHIND a well-formed one (the cumulative point may advance too)
+						if room > 4 {
+							good := fmt.Sprintf("%d-%d", 3+r.n(room-3), room)
+							if room > 6 && r.chance(50) {
+								good = fmt.Sprintf("3-%d", room)
+							}
+							bad := r.pickS("0-1", "0-2", "4-3", "2-2", fmt.Sprintf("0-%d", 1+r.n(room)), fmt.Sprintf("%d-%d", room+2, room+3))
+							gaps = good + "+" + bad
+							if r.chance(30) {
+								gaps = good + "+" + bad + "+" + good
+							}
+							h.l.stat("as.sack.invalid.later_block")
+						}
 					case 4, 5: // the peer acknowledges a FORWARD-TSN: cumulative point jumps over the abandoned chunks
 						if sna32GT(h.a.advancedPeerTSNAckPoint, h.a.cumulativeTSNAckPoint) {
 							cum, gaps = h.a.advancedPeerTSNAckPoint, "none"
